@@ -368,6 +368,13 @@ func toSMTPErr(err error) *smtp.SMTPError {
 		res.Message = smtpErr.Message
 	}
 
+	// Errors without an enhanced code (e.g. a next hop reply "550 No such
+	// user") get the generic one of their class: the DSN generator refuses
+	// recipients without a status code and the whole report would be lost.
+	if res.EnhancedCode == smtp.EnhancedCodeNotSet {
+		res.EnhancedCode = smtp.EnhancedCode{res.Code / 100, 0, 0}
+	}
+
 	return res
 }
 
